@@ -233,7 +233,7 @@ pub fn params(profile: &str) -> Params {
             p.faults = 15;
         }
         "forward" => {
-            set(&mut p.w, &[(O::NewKeyI, 14), (O::NewKeyF, 14), (O::NewDefault, 3), (O::Compare, 30), (O::NewLeaf, 10), (O::Downgrade, 6), (O::Collect, 8), (O::DebugChain, 2)]);
+            set(&mut p.w, &[(O::NewKeyI, 14), (O::NewKeyF, 14), (O::NewDefault, 3), (O::Compare, 30), (O::NewLeaf, 10), (O::Downgrade, 6), (O::Collect, 8), (O::DebugChain, 2), (O::CmpChain, 24)]);
             p.forward_idioms = true;
         }
         _ => {}
@@ -432,6 +432,15 @@ impl<'a> Gen<'a> {
             O::BulkEdges => Op::new(code, &[n, h, self.bulk_n(16382)]),
             O::BulkEdgesDrop => Op::new(code, &[n, self.bulk_n(16382)]),
             O::DebugChain => Op::new(code, &[*self.r.pick(&[1i64, 2, 5, 40, 127, 128, 129, 130, 200, 300])]),
+            O::CmpChain => {
+                let m = 1 + self.r.below(4) as i64;
+                let cyc = self.r.chance(2, 3) as i64;
+                let entry = self.r.below(m as u64) as i64;
+                let n = 1 + self.r.below(12) as i64;
+                // differ somewhere inside the right chain, or nowhere (the right chain is then a pure unrolling)
+                let d = if self.r.chance(1, 3) { 2 * 30 } else { 2 * self.r.below(n as u64) as i64 + self.r.below(2) as i64 };
+                Op::new(O::CmpChain, &[m | (cyc << 8) | (entry << 12), n, d])
+            }
             O::Compare => Op::new(O::Compare, &[h, self.handle_guess()]),
             O::Collect | O::Quiesce | O::Observe | O::NewDefault => Op::new(code, &[]),
             _ => Op::new(code, &[h]),
